@@ -6,7 +6,8 @@ about non-panicking executions; panics are C02/C16's business and handled by A9)
 from .origin import Ev, strip, render
 
 OPT_VARIANTS = {"std::option::Option": {0: "None", 1: "Some"},
-                "std::result::Result": {0: "Ok", 1: "Err"}}
+                "std::result::Result": {0: "Ok", 1: "Err"},
+                "std::ops::ControlFlow": {0: "Continue", 1: "Break"}}
 
 NEG = {"eq": "ne", "ne": "eq", "lt": "ge", "le": "gt", "gt": "le", "ge": "lt"}
 SWAP = {"eq": "eq", "ne": "ne", "lt": "gt", "le": "ge", "gt": "lt", "ge": "le"}
@@ -182,6 +183,65 @@ class Cfg:
                 if a not in out:
                     out.append(a)
         return out
+
+    # ------------------------------------------------------------------ feasibility refinement
+    def immutable_subject(self, e):
+        """an expression whose value cannot change during the call: rooted at a by-value
+        parameter that is never assigned, borrowed mutably or partially written"""
+        from .origin import field_chain
+        root, _names = field_chain(e[1] if e[0] == "discr" else e)
+        if root[0] != "param":
+            return False
+        l = root[1]
+        if self.body.local_ty(l).startswith(("&", "*")):
+            return False
+        if l in self.ev.memory_locals():
+            return False
+        return not self.ev.def_sites().get(l)
+
+    def contradicts(self, atoms, known):
+        for a in atoms:
+            for k in known:
+                if a[0] == "variant" and k[0] == "variant" and a[1] == k[1] and not (set(a[2]) & set(k[2])) and self.immutable_subject(a[1]):
+                    return True
+                if a[0] == "bool" and k[0] == "bool" and a[1] == k[1] and a[2] != k[2] and self.immutable_subject(a[1]):
+                    return True
+        return False
+
+    def guards_refined(self, b):
+        """like guards(b) but ignoring paths that contradict b's own controlling conditions on
+        immutable subjects (the same by-value parameter tested twice)"""
+        known = list(self.guards(b))
+        for _round in range(4):
+            cut = []
+            for blk in self.body.blocks:
+                t = blk.term
+                if blk.cleanup or not t or t.k != "switch":
+                    continue
+                for s in set(self.body.succs(blk.i)):
+                    if self.contradicts(self.edge_atoms(blk.i, s), known):
+                        cut.append((blk.i, s))
+            if not cut:
+                break
+            new = list(known)
+            reach_all = self.reach_from(0, cut_edges=cut)
+            if b not in reach_all:
+                break
+            for blk in self.body.blocks:
+                t = blk.term
+                if blk.cleanup or not t or t.k != "switch" or blk.i not in reach_all:
+                    continue
+                for s in set(self.body.succs(blk.i)):
+                    if (blk.i, s) in cut:
+                        continue
+                    if b not in self.reach_from(0, cut_edges=cut + [(blk.i, s)]):
+                        for a in self.edge_atoms(blk.i, s):
+                            if a not in new:
+                                new.append(a)
+            if len(new) == len(known):
+                break
+            known = new
+        return known
 
     def guard_edges_with_atoms(self, b):
         return [((s, t), self.edge_atoms(s, t)) for (s, t) in self.controlling_edges(b)]
